@@ -26,6 +26,9 @@ def portWfB (p : Port) : Bool := decide (p.flags < 16) && decide (p.linkType < 2
 def lanWfB (k : Nat) (d : List Nat) : Bool :=
   bytesB d && (k % 256 != 4 || decide (1 ≤ d.length)) && (k % 256 != 20 || decide (2 ≤ d.length))
 
+/-- a description string: at most 12 characters, none of them NUL, one byte each -/
+def descrWfB (d : List Nat) : Bool := decide (d.length ≤ 12) && d.all fun c => decide (0 < c) && decide (c < 256)
+
 def wfB (s : BmcState) : Bool :=
   let d := s.device
   let w := s.watchdog
@@ -42,7 +45,7 @@ def wfB (s : BmcState) : Bool :=
   && allB s.userNames (fun _ n => decide (n.length ≤ 16))
   && allB s.userEnabled (fun _ e => decide (e < 4))
   && decide (s.maxUsers < 64) && decide (s.fixedNames < 64)
-  && allB s.sensors (fun _ x => optAll x.states1 (· < 256) && bytesB x.thresholds)
+  && allB s.sensors (fun _ x => optAll x.states1 (· < 256) && optAll x.states2 (· < 128) && bytesB x.thresholds)
   && decide (s.evReceiverAddr < 256) && decide (s.evReceiverLun < 4)
   && allB s.leds (fun _ x => ledFnWfB true x.localFn && ledFnWfB false x.overrideFn)
   && allB s.ports (fun _ p => portWfB p)
@@ -51,6 +54,7 @@ def wfB (s : BmcState) : Bool :=
   && allB s.powerChannels (fun _ c => decide (c.status < 128))
   && decide (s.pmGlobal < 16) && decide (s.hpm.components < 256) && decide (s.hpm.selftest2 < 256)
   && decide (s.hpm.rollbackStatus < 256) && optAll s.hpm.rollbackEstimate (· < 256)
+  && allB s.hpm.compDescr (fun _ d => descrWfB d)
 
 def ledCmdInRangeB : LedCmd → Bool
   | .override (.blink o n) color => decide (1 ≤ o) && decide (o ≤ 250) && decide (n < 256) && decide (color < 16)
@@ -97,11 +101,14 @@ def inRangeB : Call → Bool
   | .fruLockNamed idx fru => decide (idx < 4) && decide (fru < 256)
   | .setPortState iface ch p =>
     decide (iface < 4) && decide (ch < 64) && p.hasLink && portWfB p && decide (p.grouping < 256) && decide (p.state < 256)
+  | .setPortStateType8 iface ch p =>
+    decide (iface < 4) && decide (ch < 64) && p.hasLink && portWfB p && decide (p.grouping < 256) && decide (p.state < 256)
   | .getPortState ch iface => decide (ch < 64) && decide (iface < 4)
   | .getPowerChannelStatus start => decide (start < 256)
   | .sendChannelPower ch _ lim pri bak => decide (ch < 256) && decide (lim < 256) && decide (pri < 256) && decide (bak < 256)
   | .setSignalingClass iface ch cls => decide (iface < 4) && decide (ch < 64) && decide (cls < 16)
   | .getSignalingClass iface ch => decide (iface < 4) && decide (ch < 64)
+  | .getComponentDescription id => decide (id < 256)
   | _ => true
 
 end PyIpmi.Spec.Bmc
